@@ -28,6 +28,7 @@ def engineModel (eng : String) (args : List String) : Option String :=
   | "eng" => Eng.model args
   | "engrep" => Eng.model args
   | "iso" => Eng.isoModel args
+  | "audit" => Eng.auditModel args
   | _ => none
 
 def engineJudge (eng : String) (args obs : List String) : Bool :=
@@ -38,6 +39,12 @@ def engineJudge (eng : String) (args obs : List String) : Bool :=
   | "body" => Body.judge args obs
   | "eng" => Eng.judge args obs
   | "engrep" => Eng.judge args obs
+  | "audit" => (match Eng.auditModel args with | some m => m == " ".intercalate obs | none => !obs.contains "PANIC")
+  | "auditconc" =>
+    -- C19_no_interleave on the observed file: every line a whole record, none lost
+    (match obs with
+     | [r, b, e] => b == "bad=0" && (r.drop 8).toString == (e.drop 9).toString
+     | _ => false)
   | "memo" => Memo.judge args obs
   | "iso" => (match Eng.isoModel args with | some m => m == " ".intercalate obs | none => !obs.contains "PANIC")
   | _ => true
